@@ -25,6 +25,7 @@ fn main() {
             Some(&"num") => numl::handle(&toks[1..]),
             Some(&"parse") => parsel::handle(&toks[1..]),
             Some(&"reparse") => parsel::handle_reparse(&toks[1..]),
+            Some(&"compile") => optl::handle_compile(&toks[1..]),
             Some(&"dbgstates") => execl::handle_dbgstates(&toks[1..]),
             Some(&"opt") => match toks.get(1) {
                 Some(&"state") => optl::handle_state(&toks[2..]),
